@@ -150,6 +150,9 @@ type Change struct {
 	ready                    chan struct{}
 	lastObservedStatus       Status
 	lastRecordedNoticeStatus Status
+	// aborting is set while Abort/AbortLanes/AbortUnreadyLanes rewrite the
+	// task statuses; readiness is evaluated once, when they are done.
+	aborting bool
 
 	spawnTime time.Time
 	readyTime time.Time
@@ -485,6 +488,11 @@ func (c *Change) Ready() <-chan struct{} {
 }
 
 func (c *Change) detectChangeReady(excludeTask *Task) {
+	if c.aborting {
+		// a partially applied abort can look ready (Do->Hold applied,
+		// Done->Undo still to come); see deferReadyDetection
+		return
+	}
 	for _, tid := range c.taskIDs {
 		task := c.state.tasks[tid]
 		if task != excludeTask && !task.status.Ready() {
@@ -498,6 +506,22 @@ func (c *Change) detectChangeReady(excludeTask *Task) {
 		panic(fmt.Errorf("change %s unexpectedly became unready (%s)", c.ID(), c.Status()))
 	}
 	c.markReady()
+}
+
+// deferReadyDetection suspends ready detection until the returned function
+// is called, which then evaluates readiness once for the final statuses.
+func (c *Change) deferReadyDetection() (done func()) {
+	if c.aborting {
+		return func() {}
+	}
+	c.aborting = true
+	return func() {
+		c.aborting = false
+		if c.IsReady() && !c.Status().Ready() {
+			panic(fmt.Errorf("change %s unexpectedly became unready (%s)", c.ID(), c.Status()))
+		}
+		c.detectChangeReady(nil)
+	}
 }
 
 // taskStatusChanged is called by tasks when their status is changed,
@@ -676,6 +700,7 @@ func (c *Change) LaneTasks(lanes ...int) []*Task {
 // Cancellation will proceed at the next ensure pass.
 func (c *Change) Abort() {
 	c.state.writing()
+	defer c.deferReadyDetection()()
 	tasks := make([]*Task, len(c.taskIDs))
 	for i, tid := range c.taskIDs {
 		tasks[i] = c.state.tasks[tid]
@@ -688,6 +713,7 @@ func (c *Change) Abort() {
 // on aborted).
 func (c *Change) AbortLanes(lanes []int) {
 	c.state.writing()
+	defer c.deferReadyDetection()()
 	c.abortLanes(lanes, make(map[int]bool), make(map[string]bool))
 }
 
@@ -695,6 +721,7 @@ func (c *Change) AbortLanes(lanes []int) {
 // a ready lane is one in which all tasks are ready.
 func (c *Change) AbortUnreadyLanes() {
 	c.state.writing()
+	defer c.deferReadyDetection()()
 	c.abortUnreadyLanes()
 }
 
